@@ -115,6 +115,11 @@ RefStep(ref, c) ==
          ELSE IF \E i \in 1..Len(q) : IsDir(ref, p \o <<q[i]>>) THEN Out("EISDIR", ref)
          ELSE Out("ok", [x \in (DOMAIN ref) \cup {p \o <<q[i]>> : i \in 1..Len(q)} |->
                            IF \E i \in 1..Len(q) : x = p \o <<q[i]>> THEN FileNode(<<c.c>>) ELSE ref[x]])
+    \* Operations.Update(replace) with k >= 1 members: every member must be an existing regular file
+    \* below p; its content is replaced and its attributes come from the source file (defaults)
+    [] c.op = "UpdateBatch" ->
+         IF \E i \in 1..Len(q) : ~IsFile(ref, p \o <<q[i]>>) THEN Out("ENOENT", ref)
+         ELSE Out("ok", [x \in DOMAIN ref |-> IF \E i \in 1..Len(q) : x = p \o <<q[i]>> THEN FileNode(<<c.c>>) ELSE ref[x]])
     [] c.op = "Chmod" ->
          IF ~Exists(ref, p) THEN Out("ENOENT", ref) ELSE Out("ok", [ref EXCEPT ![p].attr.mode = c.k])
     [] c.op = "Chown" ->
